@@ -40,7 +40,9 @@ SPEC = dict(
     trusted_base=["correspondence harness harness/overlay/index/zz_verif_c02_test.go (+ helpers of zz_verif_c03_test.go): generator, Go oracle "
                   "(bytes scan for substrings, Go regexp FindAllIndex for regexps incl. \\bLIT\\b)",
                   "hand-written model coq/Model/Ranges.v tied by differential correspondence; constants runeOffsetFrequency and the "
-                  "findOffset read window are regenerated from the source into coq/Generated/RangesConsts.v on every run",
+                  "findOffset read window are regenerated from the source into coq/Generated/RangesConsts.v on every run; the word-character table of "
+                  "bits.go characterClass is regenerated (by evaluating it on all 256 byte values) into coq/Generated/RangesWordBytes.v and the "
+                  "model's is_word_byte is PROVED equal to it (C02_word_class_table)",
                   "sort.Sort(sortByOffsetSlice) modelled as insertion sort: only the key sequence (fileName, offset, size) is observable and "
                   "the sorted key sequence is unique",
                   "WHICH candidates an atom produces (all occurrences / engine matches) is C01's model; here they are hypotheses of the theorems "
@@ -63,6 +65,18 @@ def write_consts(c):
     vf.write_if_changed(os.path.join(vf.COQ, "Generated", "RangesConsts.v"), text)
 
 
+def write_word_bytes(rec):
+    """translator output: the table of bits.go characterClass (obtained by running it on every byte value) ->
+    coq/Generated/RangesWordBytes.v; Proofs/RangesWord.v proves the model's is_word_byte equal to it"""
+    wb = rec.get("word_bytes")
+    if wb is None:
+        return
+    text = ("(* generated by props/C02/prop.py from /repo/index/bits.go characterClass (evaluated on every byte value by the harness); "
+            "do not edit *)\nFrom Coq Require Import NArith List.\nImport ListNotations.\n"
+            "Definition word_bytes : list N := [%s]%%N.\n" % "; ".join(str(int(b)) for b in wb))
+    vf.write_if_changed(os.path.join(vf.COQ, "Generated", "RangesWordBytes.v"), text)
+
+
 def run(ctx):
     # ONE `go test` invocation: TestVerifC02 first emits the translator record (constants of the tree under test), then the
     # cases.  The constants must be written before the proofs are built, so the harness runs first and standard_check
@@ -77,8 +91,13 @@ def run(ctx):
         # try the translator test alone
         hc = vf.go_harness(ctx, "index", "TestVerifC02Consts$", FILES, 1, out_name="consts.jsonl")
         info = [r for r in hc["records"] if r.get("kind") == "info" and r.get("consts")]
+    for r in hr["records"]:
+        if r.get("kind") == "info" and r.get("word_bytes") is not None:
+            write_word_bytes(r)
+            break
     if info:
         write_consts(info[0])
+        write_word_bytes(info[0])
     else:
         # The window expression of findOffset could not be evaluated from the source: the generated constants stay as they
         # are and the run cannot be OK; the oracle results of the main test (corner shards, end-to-end ranges) are still
